@@ -198,3 +198,65 @@ class Kernel:
         h.update(repr(self.schedule).encode())
         h.update(repr(self.events).encode())
         return h.hexdigest()
+
+
+class NestKernel(Kernel):
+    """All tasks on ONE thread: task j+1 runs to completion inside a yield point of task j - a caller whose
+    scanner, id generator or consumer calls back into the library (re-entrancy without threads; state kept per
+    thread or per context is shared by all tasks here). nest_at[j] is the number of the yield point of task j at
+    which task j+1 is started; a task whose parent ends before that point runs after it. The run is a pure
+    function of (spec, nest_at): there is no choice left to a scheduler."""
+
+    def __init__(self, nest_at, step_cap=100000):
+        super().__init__(policy="nested", rng=None, schedule=None, step_cap=step_cap)
+        self.nest_at = list(nest_at)
+        self.next_idx = 0
+
+    def yield_point(self, label):
+        t = self.current
+        if t is None or threading.current_thread() is not t.thread:
+            return
+        if self.killed:
+            raise SimKilled()
+        t.yields += 1
+        self.events.append((len(self.schedule), t.idx, label))
+        self.schedule.append(t.idx)
+        if len(self.schedule) >= self.step_cap:
+            self.overrun = True
+            self.killed = True
+            raise SimKilled()
+        if t.cancel_at is not None and t.yields >= t.cancel_at:
+            t.cancel_at = None
+            raise SimCancelled()
+        j = t.idx
+        if self.next_idx == j + 1 and j < len(self.nest_at) and j + 1 < len(self.tasks) and t.yields >= self.nest_at[j]:
+            self._run_task(self.tasks[j + 1])
+            if self.killed:
+                raise SimKilled()
+
+    def _run_task(self, t):
+        prev = self.current
+        if prev is not None and prev.obs is not None:
+            self.switches_inside += 1
+        self.next_idx = t.idx + 1
+        t.thread = threading.current_thread()
+        self.current = t
+        self.joint.add(tuple(x.obs for x in self.tasks))
+        try:
+            t.fn(t)
+        except SimCancelled:
+            t.cancelled = True
+            self.events.append((len(self.schedule), t.idx, "cancelled"))
+        except SimKilled:
+            pass
+        except BaseException as e:  # noqa: BLE001 - reported by the caller as a harness error
+            t.exc = e
+        finally:
+            t.done = True
+            self.current = prev
+            self.joint.add(tuple(x.obs for x in self.tasks))
+
+    def run(self, est_steps=100):
+        while self.next_idx < len(self.tasks) and not self.killed:
+            self._run_task(self.tasks[self.next_idx])
+        return self
